@@ -81,10 +81,10 @@ Seek(op, l, w, d) ==
                   ELSE { b \in Boundaries : B(F,p) <= b /\ b <= p }
      IN IF inr
         THEN \E t \in lands :
-               LET e == [e |-> k, pos |-> p, expect |-> p, inrange |-> TRUE, neg |-> FALSE, ret |-> 0, tell |-> t, cl |-> s.closes,
+               LET e == [e |-> k, pos |-> p, expect |-> p, inrange |-> TRUE, neg |-> FALSE, ret |-> 0, tell |-> t, t0 |-> s.pos, cl |-> s.closes,
                          rs |-> 4, rs0 |-> 4, cur |-> 0, cur0 |-> 0]
                IN /\ bad' = bad \cup ChkSeek(s, F, k, e, F.len) /\ s' = NxtSeek(s, F, k, e, F.len)
-        ELSE LET e == [e |-> k, pos |-> p, expect |-> p, inrange |-> FALSE, neg |-> (p < 0), ret |-> OV_EINVAL, tell |-> s.pos, cl |-> s.closes,
+        ELSE LET e == [e |-> k, pos |-> p, expect |-> p, inrange |-> FALSE, neg |-> (p < 0), ret |-> OV_EINVAL, tell |-> s.pos, t0 |-> s.pos, cl |-> s.closes,
                        rs |-> 4, rs0 |-> 4, cur |-> 0, cur0 |-> 0]
              IN /\ bad' = bad \cup ChkSeek(s, F, k, e, F.len) /\ s' = NxtSeek(s, F, k, e, F.len)
   /\ Record(<<op, l, w, d>>)
@@ -92,7 +92,7 @@ Seek(op, l, w, d) ==
 HalfRate(flag) ==
   /\ s.open /\ (Mode = "seek" \/ Len(hist) = 1)
   /\ LET t == IF flag = 1 THEN Even(s.pos, 1) ELSE s.pos
-         e == [e |-> "HalfRate", flag |-> flag, ret |-> 0, hs |-> flag, tell |-> t, cl |-> s.closes]
+         e == [e |-> "HalfRate", flag |-> flag, ret |-> 0, hs |-> flag, tell |-> t, cl |-> s.closes, rs0 |-> 3]
      IN /\ bad' = bad \cup ChkHalfRate(s, F, e) /\ s' = NxtHalfRate(s, F, e)
   /\ Record(<<"hr", flag>>)
 
